@@ -60,6 +60,8 @@ void sc_semaphore() {
   // open by a second handle under interruption, then clean up
   PSemaphore *s2 = HX_API("p_semaphore_new", 0, false, p_semaphore_new("vp-eintr-sem", 3, P_SEM_ACCESS_OPEN, &e));
   if (!s2) violate("new_failed", "p_semaphore_new", "opening an existing semaphore failed under signal delivery (native %d)", enat(e));
+  if (kern::last_sem_obj() != obj || kern::last_sem_created()) violate("open_created_another_counter", "p_semaphore_new", "opening an existing semaphore under signal delivery created a new one");
+  if (kern::sem_value(obj) != 0) violate("counter_mismatch", "p_semaphore_new", "opening an existing semaphore with initial value 3 changed its counter to %d", kern::sem_value(obj));
   HX_API_V("p_semaphore_free", 0, false, p_semaphore_free(s2));
   HX_API_V("p_semaphore_free", 0, false, p_semaphore_free(s));
   if (!kern::names_bound().empty()) violate("names_left_behind", "p_semaphore_free", "semaphore name left behind");
@@ -85,8 +87,37 @@ void sc_shm() {
   *inside = 0;
   if (!HX_API("p_shm_unlock", 0, false, p_shm_unlock(m, nullptr))) violate("unlock_failed", "p_shm_unlock", "unlock failed");
   wait_all_others();
+  // a second process opens the EXISTING segment while signals are delivered: it joins it - same bytes, same size, same lock -
+  // and when it leaves, the segment stays with its creator
+  unsigned char *base = (unsigned char *)p_shm_get_address(m);
+  size_t sz0 = p_shm_get_size(m);
+  for (size_t i = 0; i < sz0; i++) base[i] = (unsigned char)(i * 7 + 3);
+  int seg = kern::last_shm_obj();
+  spawn(2, [sz0, seg]() {
+    PError *e2 = nullptr;
+    PShm *m2 = HX_API("p_shm_new", 1, false, p_shm_new("vp-eintr-shm", 100, P_SHM_ACCESS_READWRITE, &e2));
+    if (!m2) violate("new_failed", "p_shm_new", "opening an existing segment failed under signal delivery (native %d)", enat(e2));
+    if (kern::last_shm_obj() != seg || kern::last_shm_created()) violate("open_created_another_segment", "p_shm_new", "opening an existing segment under signal delivery created a new one");
+    if (p_shm_get_size(m2) != sz0) violate("size_changed", "p_shm_get_size", "second handle reports %zu bytes, the creator %zu", (size_t)p_shm_get_size(m2), sz0);
+    unsigned char *b2 = (unsigned char *)p_shm_get_address(m2);
+    for (size_t i = 0; i < sz0; i++) if (b2[i] != (unsigned char)(i * 7 + 3)) violate("content_changed", "p_shm_new", "byte %zu of the segment changed when a second handle was opened under signal delivery", i);
+    if (!HX_API("p_shm_lock", 1, false, p_shm_lock(m2, &e2))) violate("lock_failed", "p_shm_lock", "lock through the second handle failed (native %d)", enat(e2));
+    if (!HX_API("p_shm_unlock", 1, false, p_shm_unlock(m2, nullptr))) violate("unlock_failed", "p_shm_unlock", "unlock failed");
+    HX_API_V("p_shm_free", 1, false, p_shm_free(m2));
+    probe("eintr.second_handle_of_existing_segment");
+  });
+  // meanwhile the creator takes the lock for a moment: the two handles must exclude each other
+  if (!HX_API("p_shm_lock", 0, false, p_shm_lock(m, &e))) violate("lock_failed", "p_shm_lock", "lock failed");
+  int locks0 = kern::sem_value(kern::last_sem_obj());
+  (void)locks0;
+  sleep_until(now_ns() + 2000000ULL);
+  if (!HX_API("p_shm_unlock", 0, false, p_shm_unlock(m, nullptr))) violate("unlock_failed", "p_shm_unlock", "unlock failed");
+  wait_all_others();
+  if (kern::names_bound().size() != 2) violate("segment_removed_by_non_owner", "p_shm_free", "after a non-owner freed its handle %zu of the 2 names (segment, lock) exist", kern::names_bound().size());
+  for (size_t i = 0; i < sz0; i++) if (base[i] != (unsigned char)(i * 7 + 3)) violate("content_changed", "p_shm_free", "byte %zu of the segment changed", i);
   HX_API_V("p_shm_free", 0, false, p_shm_free(m));
   if (!kern::names_bound().empty()) violate("names_left_behind", "p_shm_free", "names left behind");
+  if (kern::mapping_count(0) || kern::mapping_count(2)) violate("mapping_left", "p_shm_free", "mapping left: %s %s", kern::mapping_desc(0).c_str(), kern::mapping_desc(2).c_str());
   delete inside;
 }
 
